@@ -21,7 +21,7 @@ def cidStr : Option Cid → String
 
 def envOf (j : Json) : EnvAct :=
   match str j "act" with
-  | "xrTouch" => .xrTouch (str j "name")
+  | "xrTouch" => .xrTouch (str j "name") (nat j "id")
   | "xrRemove" => .xrRemove (str j "name")
   | "xrDelete" => .xrDelete (str j "name")
   | "claimDelete" => .claimDelete
@@ -30,7 +30,7 @@ def envOf (j : Json) : EnvAct :=
 /-- (verb, obj, name, sub, patch type) of a request, as the harness logs it -/
 def reqDesc : Req → String × String × String × String × String
   | .getClaim _ => ("get", "claim", "c", "", "")
-  | .getXR n => ("get", "xr", n, "", "")
+  | .getXR n _ => ("get", "xr", n, "", "")
   | .updClaim _ => ("update", "claim", "c", "", "")
   | .updClaimStatus _ => ("update", "claim", "c", "status", "")
   | .upgradeXR n _ _ => ("patch", "xr", n, "", "json")
@@ -83,8 +83,8 @@ def handler : Handler := fun scn =>
   let ref0 := str cj "ref"
   let claim0 : Claim := ⟨1, if ref0 == "" then none else some ref0, bool cj "fin", bool cj "deleting", bool cj "foreground"⟩
   let xrs0 := (arr scn "xrs").map fun j =>
-    (str j "name", (⟨2, cidOf (str j "ref"), bool j "labeled", bool j "fin", bool j "deleting", bool j "status"⟩ : XR))
-  let s0 : St := { claim := some claim0, hist := [claim0], xrs := fun n => xrs0.lookup n, nextRv := 10, trace := [] }
+    (str j "name", (⟨2, cidOf (str j "ref"), bool j "labeled", bool j "fin", bool j "deleting", bool j "status", 0⟩ : XR))
+  let s0 : St := { claim := some claim0, hist := [claim0], xrs := fun n => xrs0.lookup n, xhist := fun n => [xrs0.lookup n], nextRv := 10, trace := [] }
   let recs := arr scn "recs"
   let names := dedupSorted (xrs0.map (·.1) ++ strs scn "cands" ++ (recs.flatMap fun r => strs r "names") ++ (if ref0 == "" then [] else [ref0]))
   let initRefs := if ref0 == "" then [] else [ref0]
@@ -108,7 +108,30 @@ def handler : Handler := fun scn =>
         | none => (none, bad.or (some "the cache served a stale claim version the model's history does not contain"))
       else (none, bad)
     let up : Option Bool := match str rj "up" with | "ok" => some true | "invalid" => some false | _ => none
-    let cfg : Cfg := { ssa := ssa, pick := pick, cands := strs rj "names", up := up }
+    -- XR reads in order of occurrence: with a reference, the Get of Reconcile (site 0) and the Get of the
+    -- client-side Apply (site 1); without, the availability Gets of the drawn names (sites 2..), then site 1
+    let nNames := (strs rj "names").length
+    let siteOf (occ : Nat) : Nat :=
+      if bool rd "found" && str rd "ref" != "" then occ
+      else if occ < nNames then 2 + occ else 1
+    let xsel : List (Nat × (List (Option XR) → Option (Option XR))) := ((arr rj "xreads").zipIdx.filterMap fun (xj, occ) =>
+      if bool xj "stale" then
+        let p : Option XR → Bool :=
+          if bool xj "found" then
+            let want := (cidOf (str xj "ref"), bool xj "labeled", bool xj "fin", bool xj "deleting", bool xj "status", nat xj "gen")
+            fun ox => match ox with
+              | some x => (x.cref, x.labeled, x.fin, x.deleting, x.status, x.gen) == want
+              | none => false
+          else fun ox => ox.isNone
+        -- the newest older state with that content in the right incarnation of the name:
+        -- exactly `absAfter` absences lie between it and the stored state
+        let k := nat xj "absAfter"
+        let rec go : List (Option XR) → Nat → Option (Option XR)
+          | [], _ => none
+          | e :: rest, cnt => if p e && cnt == k then some e else go rest (cnt + (if e.isNone then 1 else 0))
+        some (siteOf occ, fun older => go older 0)
+      else none)
+    let cfg : Cfg := { ssa := ssa, pick := pick, xpick := fun site => xsel.lookup site, cands := strs rj "names", up := up }
     let (s', calls, res) := runRec plan envAt 0 (reconcile cfg) s
     let resStr := match res with | some .ok => "ok" | some .requeue => "requeue" | some .err => "err" | none => "crashed"
     let o := Json.mkObj [("calls", Json.arr (calls.map callJson).toArray), ("res", .str resStr),
